@@ -6,6 +6,12 @@
 //   foreach <T> <w> <h> <s>
 //        for_each_pixel(any view, F), F adds its call counter to physical channel 0 (mod 2^depth) and counts calls
 //     -> A:ok n=<calls of the returned functor> dst=<hex> | C:ok n= dst=
+//   xfill <T> <P> <w> <h> <s> <kind> <a> <b> <c0> <c1> <c2> <c3>      P in g8 bgr8 rgb16 argb8 g16
+//        fill_pixels THROUGH A LIFTED TRANSFORMATION of the run-time typed view (the algorithm runs on the mapped type list):
+//        kind = fliplr: flipped_left_right_view(v);  subs: subsampled_view(v, a, b);  sub: subimage_view(v, a, b, w-a, h-b)
+//     -> compat= A:<ok|err:bad_cast> dst=<hex of the WHOLE image> | C:<ok dst=|n/a> | D0=<hex>
+//   xforeach <T> <w> <h> <s> <kind> <a> <b>      for_each_pixel through the same lifted transformations
+//     -> A:ok n= dst=<whole image> | C:ok n= dst=
 #include "c14.hpp"
 using namespace c14;
 
@@ -61,6 +67,53 @@ std::string run_foreach(std::string const& T, std::ptrdiff_t w, std::ptrdiff_t h
     return out;
 }
 
+template <typename V, typename F> void with_kind(std::string const& kind, std::ptrdiff_t a, std::ptrdiff_t b, std::ptrdiff_t w, std::ptrdiff_t h, V const& v, F&& f) {
+    if (kind == "fliplr") f(gil::flipped_left_right_view(v));
+    else if (kind == "subs") f(gil::subsampled_view(v, a, b));
+    else f(gil::subimage_view(v, a, b, w - a, h - b));
+}
+
+template <typename PImg>
+std::string run_xfill(std::string const& T, std::ptrdiff_t w, std::ptrdiff_t h, uint64_t s, std::string const& kind, std::ptrdiff_t ka, std::ptrdiff_t kb, uint64_t const* c) {
+    std::string out = "bad-type";
+    auto pv = make_pixel<PImg>(c);
+    using P = decltype(pv);
+    with_type<L7>(T, [&](auto tc) {
+        using Img = typename decltype(tc)::type;
+        constexpr bool compat = gil::pixels_are_compatible<typename Img::view_t::value_type, P>::value;
+        int d = info<Img>::depth;
+        L7 a(make<Img>(w, h, s));
+        std::string D0 = dump_any(gil::const_view(a), d), st = "ok";
+        with_kind(kind, ka, kb, w, h, gil::view(a), [&](auto const& av) {
+            try { gil::fill_pixels(av, pv); } catch (std::exception const& e) { st = exc_name(e); } });
+        std::string A = "A:" + st + " dst=" + dump_any(gil::const_view(a), d), C = "C:n/a";
+        if constexpr (compat) {
+            Img ci = make<Img>(w, h, s);
+            with_kind(kind, ka, kb, w, h, gil::view(ci), [&](auto const& cv) { gil::fill_pixels(cv, pv); });
+            C = "C:ok dst=" + dump(gil::const_view(ci), d);
+        }
+        out = std::string("compat=") + (compat ? "1" : "0") + " " + A + " | " + C + " | D0=" + D0;
+    });
+    return out;
+}
+
+std::string run_xforeach(std::string const& T, std::ptrdiff_t w, std::ptrdiff_t h, uint64_t s, std::string const& kind, std::ptrdiff_t ka, std::ptrdiff_t kb) {
+    std::string out = "bad-type";
+    with_type<L7>(T, [&](auto tc) {
+        using Img = typename decltype(tc)::type;
+        int d = info<Img>::depth;
+        L7 a(make<Img>(w, h, s));
+        counting_fn f0; f0.depth = d;
+        counting_fn fa, fc;
+        with_kind(kind, ka, kb, w, h, gil::view(a), [&](auto const& av) { fa = gil::for_each_pixel(av, f0); });
+        std::string A = "A:ok n=" + std::to_string(fa.n) + " dst=" + dump_any(gil::const_view(a), d);
+        Img ci = make<Img>(w, h, s);
+        with_kind(kind, ka, kb, w, h, gil::view(ci), [&](auto const& cv) { fc = gil::for_each_pixel(cv, f0); });
+        out = A + " | C:ok n=" + std::to_string(fc.n) + " dst=" + dump(gil::const_view(ci), d);
+    });
+    return out;
+}
+
 int main() {
     return hv::run([](std::string const& line) -> std::string {
         auto a = op_words(line);
@@ -77,6 +130,23 @@ int main() {
             if (P == "argb8") return run_fill<gil::argb8_image_t>(T, w, h, s, c);
             if (P == "cmyk8") return run_fill<gil::cmyk8_image_t>(T, w, h, s, c);
             return "bad-op";
+        }
+        if (a.size() == 13 && a[0] == "xfill") {
+            std::string T = a[1], P = a[2]; std::ptrdiff_t w = hv::to_ll(a[3]), h = hv::to_ll(a[4]); uint64_t s = hv::to_ull(a[5]);
+            std::string kind = a[6]; std::ptrdiff_t ka = hv::to_ll(a[7]), kb = hv::to_ll(a[8]);
+            if (!(kind == "fliplr" || (kind == "subs" && ka >= 1 && kb >= 1) || (kind == "sub" && ka >= 0 && kb >= 0 && ka < w && kb < h)) || w < 1 || h < 1) return "bad-op";
+            uint64_t c[4] = { hv::to_ull(a[9]), hv::to_ull(a[10]), hv::to_ull(a[11]), hv::to_ull(a[12]) };
+            if (P == "g8")    return run_xfill<gil::gray8_image_t>(T, w, h, s, kind, ka, kb, c);
+            if (P == "bgr8")  return run_xfill<gil::bgr8_image_t>(T, w, h, s, kind, ka, kb, c);
+            if (P == "rgb16") return run_xfill<gil::rgb16_image_t>(T, w, h, s, kind, ka, kb, c);
+            if (P == "argb8") return run_xfill<gil::argb8_image_t>(T, w, h, s, kind, ka, kb, c);
+            if (P == "g16")   return run_xfill<gil::gray16_image_t>(T, w, h, s, kind, ka, kb, c);
+            return "bad-op";
+        }
+        if (a.size() == 8 && a[0] == "xforeach") {
+            std::ptrdiff_t w = hv::to_ll(a[2]), h = hv::to_ll(a[3]); std::string kind = a[5]; std::ptrdiff_t ka = hv::to_ll(a[6]), kb = hv::to_ll(a[7]);
+            if (!(kind == "fliplr" || (kind == "subs" && ka >= 1 && kb >= 1) || (kind == "sub" && ka >= 0 && kb >= 0 && ka < w && kb < h)) || w < 1 || h < 1) return "bad-op";
+            return run_xforeach(a[1], w, h, hv::to_ull(a[4]), kind, ka, kb);
         }
         if (a.size() == 5 && a[0] == "foreach") return run_foreach(a[1], hv::to_ll(a[2]), hv::to_ll(a[3]), hv::to_ull(a[4]));
         return "bad-op";
